@@ -13,8 +13,8 @@ from . import core
 VERIF = core.VERIF
 PROPS_FILE = os.path.join(VERIF, "props.json")
 KNOWN_FILE = os.path.join(VERIF, "known_findings.json")
-EVIDENCE_DIR = os.path.join(VERIF, "evidence")
-REPLAY_DIR = os.path.join(VERIF, "replays")
+EVIDENCE_DIR = os.path.join(core.OUT, "evidence")
+REPLAY_DIR = os.path.join(core.OUT, "replays")
 ALLOW_FILE = os.path.join(VERIF, "assumptions_allow.json")
 NCPU = int(os.environ.get("VERIF_JOBS", "16"))
 
@@ -383,7 +383,8 @@ def run_property(pid, tier, seed, t0, pin=False):
         for u in runs:
             names = sorted({ob["name"] for ob in u.obs if ob["kind"] in ("fn", "lemma") and ob["success"]})
             with open(baseline_path(u.unit, u.model), "w") as f:
-                json.dump({"obligations": names, "anchor_lines": u.gen.anchor_lines}, f, indent=1)
+                shape = {fn["key"]: [fn.get("closures_without_contract", 0), fn.get("loops", 0)] for fn in u.gen.fns}
+                json.dump({"obligations": names, "anchor_lines": u.gen.anchor_lines, "closure_sigs": u.gen.closure_sigs, "shape": shape}, f, indent=1)
         undecided = [x for x in undecided if "allow-list" not in x]
 
     # ---- E2 Kani (bounded / complete harnesses)
@@ -437,6 +438,19 @@ def run_property(pid, tier, seed, t0, pin=False):
         if not was_discharged and not found:
             undecided.append(f"{ob_id}: obligation fails but was never discharged on the pinned tree and no failing input was found")
             continue
+        # a loop or a non-trivial closure that the pinned tree did not have carries no invariant / contract: the
+        # verifier then knows nothing about it and the failure says "needs annotation", not "property broken"
+        # (DESIGN 11.3); it counts only together with a failing input on the real code
+        base_doc = load_baseline(u.unit, u.model) or {}
+        pinned_shape = (base_doc.get("shape") or {}).get(f["name"])
+        cur = next((fn for fn in u.gen.fns if fn["key"] == f["name"]), None)
+        if pinned_shape and cur and not found:
+            more_closures = cur.get("closures_without_contract", 0) > pinned_shape[0]
+            more_loops = cur.get("loops", 0) > pinned_shape[1]
+            if more_closures or more_loops:
+                what = ("closure(s) without contract" if more_closures else "") + (" loop(s) without invariant" if more_loops else "")
+                undecided.append(f"{ob_id}: fails, but the function gained {what.strip()} since the pinned tree and no failing input was found (needs annotation)")
+                continue
         extra = {"hints_dropped_because_their_anchor_statement_disappeared": int(u.gen.rewrites.get("R1.droppedhint", 0)),
                  "hints_reattached_by_similarity": int(u.gen.rewrites.get("R1.fuzzyanchor", 0)),
                  "failing_input_found": bool(found), "replay_cmd": (["nuts-replay"] + rp) if rp else None, "replay_output": out[-4000:],
